@@ -215,6 +215,21 @@ CHECKS += [
              "so its proof size is compared within the band the model derives. Batch and combination proofs are vectors of these proofs "
              "(C12 covers their encoding); streaming and multilinear-PST sizes are theorems only (no trait-level flow)."},
 ]
+CHECKS += [
+    {"property_id": "C18",
+     "text": "Partial by nature: a theorem cannot exhibit a scheduler. Proved (Coq): every data-parallel combinator behind cfg_iter!/cfg_into_iter!/"
+             "cfg_iter_mut! - order-preserving map/collect, enumerate-map over disjoint slots, reduce/sum with an associative operation and "
+             "identity - returns the value of the sequential loop for every split plan (the build without the parallel feature is the plan "
+             "Seq); instantiated for multi-scalar sums (exact field arithmetic: re-association cannot change the result), PST13's per-monomial "
+             "setup map and the per-row work of the matrix schemes. Checked at run time: the scenarios of C01 (all 8 schemes, honest transcripts "
+             "with seeded commit/check RNGs), the size ladder of C19 (up to 2^12 coefficients), PST13 setup, streaming KZG and the C08 flows "
+             "run in the harness under RAYON_NUM_THREADS = 1, 2, 3, 8, 16 (16 repeated five times in the thorough tier) and in a harness built "
+             "with --no-default-features (no rayon); every observable and every byte the harness prints (keys, commitments, states, proofs, "
+             "decisions, sizes) must equal the reference run, which itself is compared with the deterministic extracted model; SHA-256 digests "
+             "of the canonical output of each configuration are recorded in the evidence.",
+     "note": COMMON_NOTE + " Not covered: an actual data race inside a dependency (the crate forbids unsafe code), schedules rayon never "
+             "produced during the runs, and thread counts other than the listed ones."},
+]
 _PENDING = "check not built yet in this round (model and correspondence under construction; see DESIGN.md section 7)"
 _CLAIMED = {c["property_id"] for c in CHECKS}
 NOT_APPLICABLE = [{"property_id": "C%02d" % i, "reason": _PENDING} for i in range(1, 20) if "C%02d" % i not in _CLAIMED]
